@@ -5,7 +5,9 @@
 use std::collections::HashMap;
 use std::panic::{catch_unwind, AssertUnwindSafe};
 use std::path::PathBuf;
-use std::sync::{Arc, Condvar, Mutex};
+use std::sync::{Arc, Mutex};
+
+use teos::verif_sync::{Condvar as TCondvar, Mutex as TMutex};
 
 use bitcoin::block::Block;
 use bitcoin::consensus;
@@ -221,7 +223,7 @@ pub struct Comps {
     pub gatekeeper: Arc<Gatekeeper>,
     pub watcher: Arc<Watcher>,
     pub responder: Arc<Responder>,
-    pub reachable: Arc<(Mutex<bool>, Condvar)>,
+    pub reachable: Arc<(TMutex<bool>, TCondvar)>,
 }
 
 pub struct Recorder {
@@ -249,6 +251,9 @@ pub struct Recorder {
     pub frozen: bool,
     /// attribute the node RPCs of this thread to the next event (a joined asynchronous call)
     pub rpc_thread: Option<std::thread::ThreadId>,
+    /// during a scheduled concurrent run the observing listeners only collect the chain events
+    pub quiet: bool,
+    pub conc_chain: Vec<Value>,
 }
 
 pub type Rec = Arc<Mutex<Recorder>>;
@@ -502,6 +507,21 @@ pub struct Obs<L: chain::Listen> {
 
 impl<L: chain::Listen> chain::Listen for Obs<L> {
     fn filtered_block_connected(&self, header: &bitcoin::block::Header, txdata: &chain::transaction::TransactionData, height: u32) {
+        if self.rec.lock().unwrap().quiet {
+            if self.name == "Gk" {
+                let mut rec = self.rec.lock().unwrap();
+                let block = { rec.node.lock().unwrap().known.get(&header.block_hash()).map(|(b, _)| b.clone()) };
+                if let Some(b) = block {
+                    let blk = rec.blk_json(&b, height);
+                    rec.conc_chain.push(json!(["conn", blk]));
+                }
+            }
+            self.inner.filtered_block_connected(header, txdata, height);
+            if self.name == "R" {
+                self.rec.lock().unwrap().spv_tip = Some(header.block_hash());
+            }
+            return;
+        }
         let r = catch_unwind(AssertUnwindSafe(|| self.inner.filtered_block_connected(header, txdata, height)));
         let abort = if r.is_err() { take_abort_class().0 } else { String::new() };
         {
@@ -525,6 +545,21 @@ impl<L: chain::Listen> chain::Listen for Obs<L> {
     }
 
     fn block_disconnected(&self, header: &bitcoin::block::Header, height: u32) {
+        if self.rec.lock().unwrap().quiet {
+            if self.name == "Gk" {
+                let mut rec = self.rec.lock().unwrap();
+                let block = { rec.node.lock().unwrap().known.get(&header.block_hash()).map(|(b, _)| b.clone()) };
+                if let Some(b) = block {
+                    let blk = rec.blk_json(&b, height);
+                    rec.conc_chain.push(json!(["disc", blk]));
+                }
+            }
+            self.inner.block_disconnected(header, height);
+            if self.name == "R" {
+                self.rec.lock().unwrap().spv_tip = Some(header.prev_blockhash);
+            }
+            return;
+        }
         let r = catch_unwind(AssertUnwindSafe(|| self.inner.block_disconnected(header, height)));
         let abort = if r.is_err() { take_abort_class().0 } else { String::new() };
         {
@@ -553,13 +588,13 @@ type Listener = (Arc<Obs<Gatekeeper>>, &'static Inner);
 type Monitor = ChainMonitor<'static, ChainPoller<Arc<SimSource>, SimSource>, UnboundedCache, &'static Listener>;
 
 pub struct Tower {
-    pub dbm: Arc<Mutex<DBM>>,
+    pub dbm: Arc<TMutex<DBM>>,
     pub gatekeeper: Arc<Gatekeeper>,
     pub responder: Arc<Responder>,
     pub watcher: Arc<Watcher>,
     pub api: Arc<InternalAPI>,
     pub monitor: Option<Monitor>,
-    pub reachable: Arc<(Mutex<bool>, Condvar)>,
+    pub reachable: Arc<(TMutex<bool>, TCondvar)>,
     pub tower_pk: PublicKey,
 }
 
@@ -631,6 +666,8 @@ impl Rig {
             last_db: json!({}),
             frozen: false,
             rpc_thread: None,
+            quiet: false,
+            conc_chain: Vec::new(),
         }));
         Rig {
             calls: HashMap::new(),
@@ -670,7 +707,7 @@ impl Rig {
         let db_path = self.db_path.clone();
         let r = catch_unwind(AssertUnwindSafe(|| {
             self.rt.block_on(async {
-                let dbm = Arc::new(Mutex::new(DBM::new(db_path.clone()).unwrap()));
+                let dbm = Arc::new(TMutex::new(DBM::new(db_path.clone()).unwrap()));
                 let (tower_sk, tower_pk) = {
                     let locked_db = dbm.lock().unwrap();
                     if let Some(sk) = locked_db.load_tower_key() {
@@ -681,7 +718,7 @@ impl Rig {
                         (sk, pk)
                     }
                 };
-                let reachable = Arc::new((Mutex::new(true), Condvar::new()));
+                let reachable = Arc::new((TMutex::new(true), TCondvar::new()));
                 let rpc = Arc::new(rpc_client(&node));
                 let src = Arc::new(SimSource(node.clone()));
                 let last_known_block = dbm.lock().unwrap().load_last_known_block();
@@ -1210,5 +1247,278 @@ impl Rig {
         rec.comps = None;
         rec.frozen = false;
         rec.emit_plain(json!({"act": "Crash"}));
+    }
+}
+
+
+// ---------------------------------------------------------------------------------------------------
+// scheduled concurrent runs (C10 / C11)
+
+pub struct ConcOutcome {
+    pub decisions: Vec<crate::conc::Decision>,
+    pub deadlock: bool,
+    pub timeout: bool,
+}
+
+type Job = Box<dyn FnOnce() -> (Value, Option<Monitor>) + Send + 'static>;
+
+impl Rig {
+    /// Restores a checkpoint: the database file and the node state; the symbol tables are kept.
+    pub fn restore(&mut self, db_checkpoint: &std::path::Path, node: crate::simnode::NodeState) {
+        self.tower = None;
+        std::fs::copy(db_checkpoint, &self.db_path).expect("cannot restore the database checkpoint");
+        let node = Arc::new(Mutex::new(node));
+        self.node = node.clone();
+        let mut rec = self.rec.lock().unwrap();
+        rec.comps = None;
+        rec.node = node;
+        rec.rdb = None;
+        rec.frozen = false;
+        rec.quiet = false;
+        rec.emit_plain(json!({"act": "Restore"}));
+    }
+
+    fn job_for(&mut self, op: &Value) -> (Value, Job) {
+        let api = self.api();
+        let tower_id = TowerId(self.tower.as_ref().unwrap().tower_pk);
+        let scale = self.cfg.scale;
+        match op["op"].as_str().unwrap() {
+            "register" => {
+                let u = op["u"].as_i64().unwrap();
+                let pk = self.rec.lock().unwrap().sym.user(u).1;
+                let job: Job = Box::new(move || {
+                    let rt = tokio::runtime::Builder::new_current_thread().enable_all().build().unwrap();
+                    let v = rt.block_on(async {
+                        match api.register(Request::new(common_msgs::RegisterRequest { user_id: pk.serialize().to_vec() })).await {
+                            Ok(resp) => {
+                                let m = resp.into_inner();
+                                let ok = UserId::from_slice(&m.user_id)
+                                    .map(|id| {
+                                        RegistrationReceipt::with_signature(id, m.available_slots, m.subscription_start, m.subscription_expiry, m.subscription_signature.clone())
+                                            .verify(&tower_id)
+                                    })
+                                    .unwrap_or(false);
+                                json!({"code": "ok", "slots": m.available_slots / scale, "start": m.subscription_start, "expiry": m.subscription_expiry, "sig_ok": ok})
+                            }
+                            Err(s) => code_of(&s),
+                        }
+                    });
+                    (v, None)
+                });
+                (json!({"op": "register", "u": u}), job)
+            }
+            "add" => {
+                let u = op["u"].as_i64().unwrap();
+                let l = op["l"].as_i64().unwrap();
+                let tsd = op["tsd"].as_u64().unwrap_or(42) as u32;
+                let (blob, key, pay) = self.make_blob(&op["blob"]);
+                let ltx = self.rec.lock().unwrap().sym.tx(l);
+                let locator = Locator::new(ltx.compute_txid());
+                let appointment = teos_common::appointment::Appointment::new(locator, blob.clone(), tsd);
+                let (sig, who) = self.sign_class(u, &appointment.to_vec(), b"", "valid");
+                let ver = self.rec.lock().unwrap().sym.ver_of(&sig);
+                let size = blob.len();
+                let job: Job = Box::new(move || {
+                    let rt = tokio::runtime::Builder::new_current_thread().enable_all().build().unwrap();
+                    let v = rt.block_on(async {
+                        let req = common_msgs::AddAppointmentRequest {
+                            appointment: Some(common_msgs::Appointment { locator: locator.to_vec(), encrypted_blob: blob.clone(), to_self_delay: tsd }),
+                            signature: sig.clone(),
+                        };
+                        match api.add_appointment(Request::new(req)).await {
+                            Ok(resp) => {
+                                let m = resp.into_inner();
+                                let ok = AppointmentReceipt::with_signature(sig.clone(), m.start_block, m.signature.clone()).verify(&tower_id);
+                                json!({"code": "ok", "start": m.start_block, "slots": m.available_slots / scale, "expiry": m.subscription_expiry, "sig_ok": ok, "ver": ver})
+                            }
+                            Err(s) => code_of(&s),
+                        }
+                    });
+                    (v, None)
+                });
+                (json!({"op": "add", "who": who, "l": l, "key": key, "pay": pay, "size": size, "tsd": tsd, "ver": ver}), job)
+            }
+            "get" => {
+                let u = op["u"].as_i64().unwrap();
+                let l = op["l"].as_i64().unwrap();
+                let ltx = self.rec.lock().unwrap().sym.tx(l);
+                let locator = Locator::new(ltx.compute_txid());
+                let msg = format!("get appointment {locator}");
+                let (sig, who) = self.sign_class(u, msg.as_bytes(), b"", "valid");
+                let rec = self.rec.clone();
+                let job: Job = Box::new(move || {
+                    let rt = tokio::runtime::Builder::new_current_thread().enable_all().build().unwrap();
+                    let v = rt.block_on(async {
+                        match api.get_appointment(Request::new(common_msgs::GetAppointmentRequest { locator: locator.to_vec(), signature: sig })).await {
+                            Ok(resp) => {
+                                let m = resp.into_inner();
+                                let rec = rec.lock().unwrap();
+                                match m.appointment_data.and_then(|d| d.appointment_data) {
+                                    Some(common_msgs::appointment_data::AppointmentData::Appointment(a)) => {
+                                        let (key, pay) = *rec.sym.blobs.get(&a.encrypted_blob).unwrap_or(&(-999, -999));
+                                        json!({"code": "ok", "status": "watched", "key": key, "pay": pay, "size": a.encrypted_blob.len(), "tsd": a.to_self_delay})
+                                    }
+                                    Some(common_msgs::appointment_data::AppointmentData::Tracker(t)) => {
+                                        let d = Txid::from_slice(&t.dispute_txid).map(|x| rec.sym.sym_of_txid(&x)).unwrap_or(-1);
+                                        let p = Txid::from_slice(&t.penalty_txid).map(|x| rec.sym.sym_of_txid(&x)).unwrap_or(-1);
+                                        json!({"code": "ok", "status": "responded", "d": d, "p": p})
+                                    }
+                                    None => json!({"code": "ok", "status": "none"}),
+                                }
+                            }
+                            Err(s) => code_of(&s),
+                        }
+                    });
+                    (v, None)
+                });
+                (json!({"op": "get", "who": who, "l": l}), job)
+            }
+            "poll" => {
+                let mut monitor = self.tower.as_mut().unwrap().monitor.take().expect("chain monitor busy");
+                let job: Job = Box::new(move || {
+                    let rt = tokio::runtime::Builder::new_current_thread().enable_all().build().unwrap();
+                    rt.block_on(monitor.poll_best_tip());
+                    (json!({"code": "ok"}), Some(monitor))
+                });
+                (json!({"op": "poll"}), job)
+            }
+            o => panic!("unknown concurrent op {o}"),
+        }
+    }
+
+    /// Runs the operations concurrently under the scheduler, following `prefix` and then the default (no preemption) or
+    /// random policy. Emits one Conc event. The tower is abandoned when the run deadlocks or times out.
+    pub fn run_conc(&mut self, ops: &[Value], prefix: Vec<usize>, random: Option<u64>) -> ConcOutcome {
+        let n = ops.len();
+        let mut descs = Vec::new();
+        let mut jobs: Vec<Job> = Vec::new();
+        for op in ops {
+            let (d, j) = self.job_for(op);
+            descs.push(d);
+            jobs.push(j);
+        }
+        let node_tip = { self.node.lock().unwrap().tip().block_hash() };
+        let sched = crate::conc::Sched::new(n, prefix, random);
+        {
+            let mut rec = self.rec.lock().unwrap();
+            rec.quiet = true;
+            rec.conc_chain.clear();
+        }
+        teos::verif_sync::install(Some(sched.clone()));
+        *crate::conc::ACTIVE.lock().unwrap() = Some(sched.clone());
+        let (tx, rx) = std::sync::mpsc::channel();
+        let mut tids = Vec::new();
+        for (i, job) in jobs.into_iter().enumerate() {
+            let tx = tx.clone();
+            let sched = sched.clone();
+            let h = std::thread::spawn(move || {
+                sched.enter(i);
+                let r = catch_unwind(AssertUnwindSafe(job));
+                let (v, mon, abort) = match r {
+                    Ok((v, m)) => (v, m, String::new()),
+                    Err(_) => (json!({"code": "abort"}), None, take_abort_class().0),
+                };
+                sched.exit(i);
+                let _ = tx.send((i, v, mon, abort, std::thread::current().id()));
+            });
+            tids.push(h.thread().id());
+        }
+        sched.start();
+        let t0 = std::time::Instant::now();
+        let mut results: Vec<Option<(Value, String)>> = vec![None; n];
+        let mut got = 0;
+        let mut timeout = false;
+        while got < n {
+            match rx.recv_timeout(std::time::Duration::from_millis(50)) {
+                Ok((i, v, mon, abort, _tid)) => {
+                    if let (Some(t), Some(m)) = (self.tower.as_mut(), mon) {
+                        t.monitor = Some(m);
+                    }
+                    results[i] = Some((v, abort));
+                    got += 1;
+                }
+                Err(_) => {
+                    if sched.deadlocked() {
+                        break;
+                    }
+                    if t0.elapsed().as_secs() >= 15 {
+                        timeout = true;
+                        break;
+                    }
+                }
+            }
+        }
+        teos::verif_sync::install(None);
+        *crate::conc::ACTIVE.lock().unwrap() = None;
+        let deadlock = sched.deadlocked();
+        let decisions = sched.decisions();
+        let mut ops_out = Vec::new();
+        let mut aborts = Vec::new();
+        for (i, d) in descs.iter().enumerate() {
+            let mut o = d.clone();
+            match &results[i] {
+                Some((v, abort)) => {
+                    o["reply"] = v.clone();
+                    if !abort.is_empty() {
+                        aborts.push(json!([i, abort]));
+                    }
+                }
+                None => {
+                    o["reply"] = json!({"code": "blocked"});
+                }
+            }
+            ops_out.push(o);
+        }
+        let mut rec = self.rec.lock().unwrap();
+        rec.quiet = false;
+        let chain = std::mem::take(&mut rec.conc_chain);
+        let tip = rec.sym.block(&node_tip);
+        // node RPCs of all operation threads, in call order
+        let mut rpc = Vec::new();
+        {
+            let mut node = rec.node.lock().unwrap();
+            let entries: Vec<(String, bitcoin::Txid, String)> = node
+                .rpc_log
+                .iter_mut()
+                .filter(|e| !e.taken && tids.contains(&e.tid))
+                .map(|e| {
+                    e.taken = true;
+                    (e.method.to_string(), e.txid, e.verdict.clone())
+                })
+                .collect();
+            drop(node);
+            for (m, txid, v) in entries {
+                rpc.push(json!([m, rec.sym.sym_of_txid(&txid), v]));
+            }
+        }
+        let schedule: Vec<usize> = decisions.iter().map(|d| d.chosen).collect();
+        let wait_for: Vec<Value> = sched.wait_for().iter().map(|(t, l, o)| json!([t, l, o])).collect();
+        let edges: Vec<Value> = sched.lock_order_edges().iter().map(|(t, a, b)| json!([t, a, b])).collect();
+        if deadlock || timeout {
+            rec.frozen = true; // some locks are held for ever: durable state only
+        }
+        let fields = json!({"act": "Conc", "ops": ops_out, "chain": chain, "tip": tip, "schedule": schedule, "deadlock": deadlock,
+                            "timeout": timeout, "aborts": aborts, "wait_for": wait_for, "lock_order": edges});
+        let mut f = fields;
+        let db = rec.project_db();
+        let mem = rec.project_mem();
+        let mut post = db;
+        for (k, v) in mem.as_object().unwrap() {
+            post[k] = v.clone();
+        }
+        f["rpc"] = Value::Array(rpc);
+        f["abort"] = json!("");
+        f["frozen"] = json!(rec.frozen);
+        f["post"] = post;
+        rec.tw.emit(&f);
+        rec.frozen = false;
+        drop(rec);
+        if deadlock || timeout {
+            if let Some(t) = self.tower.take() {
+                std::mem::forget(t);
+            }
+            self.rec.lock().unwrap().comps = None;
+        }
+        ConcOutcome { decisions, deadlock, timeout }
     }
 }
